@@ -60,9 +60,22 @@ def run(ctx):
         "X-SOCKETACE announce, TLS, websocket upgrade plain/TLS, KCP, DNS) and recorders: observed transport, encryption, "
         "bound endpoint and the secure flag equal the table. Black-box monitor: the real binary with generated YAML files / "
         "command lines, sockets of the child read from /proc, same classifier; malformed input must end the process with a "
-        "non-zero exit and a message and no Go panic trace. A case is distinct by (monitor, input form, position, input).",
+        "non-zero exit and a message and no Go panic trace. Context (parse monitor): every item is parsed again inside a larger "
+        "file - next to a valid section of the other command in the same YAML document (before and after it; the file is parsed "
+        "8 (quick) / 24 (thorough) times with a fresh parser because the order in which the sections are visited is Go's map "
+        "order), in a multi-document file ('---', before/after), and with a valid sibling item before/after it in the same "
+        "YAML/JSON list; oracle: what the parser says about the item alone is what it says in every context and repetition "
+        "(rejected stays rejected, accepted stays the same object). Reuse (start and black-box monitors): every configured "
+        "object is used more than once - 3 (quick) / 5 (thorough) Connects on the same upstream object, two or three local "
+        "connections through the same client process (so that the carrier is reopened on the same upstream), further "
+        "connections through the same listener / channel, further clients probing the same server; every use is judged by "
+        "the same table (signature prefix reuse-). A case is distinct by (monitor, input form [+context], position, input).",
         ["the README line references are those of the README at the time the table was transcribed",
          "a scheme that the code accepts but the README does not list is only checked for its natural reading when accepted",
          "late rejection (address accepted by the parser, refused with an error at Startup/Connect) counts as rejected",
-         "channel/listener/upstream near-misses that fail only when a connection is attempted are not judged as accepted"],
+         "channel/listener/upstream near-misses that fail only when a connection is attempted are not judged as accepted",
+         "context: the valid section placed next to the item is the first candidate that the parser accepts when it stands alone "
+         "(client: listen+upstream, listen, insecure only; server: servers+channels, channels)",
+         "reuse: a stdio upstream / stdio server has one peer per process and is used once; the black-box client is re-used for "
+         "stream carriers (socket, websocket) only, where one accepted connection at the recorder is one attempt of the client"],
         extra_cov={"exhaustive": False}, post=post)
